@@ -146,9 +146,40 @@ class Shadow:
                 return s
         return None
 
+    def udf_twin(self, siblings):
+        """a name whose UDF identifier has the same BYTES as that of a sibling, in the other encoding (8-bit 'ab' and the
+        16-bit U+6162): lookups and removals that compare bytes without the encoding take one for the other"""
+        for s in sorted(siblings):
+            cands = []
+            try:
+                b = s.encode('latin-1')
+                if len(b) >= 2 and len(b) % 2 == 0:
+                    cands.append(b.decode('utf-16-be'))
+            except (UnicodeEncodeError, UnicodeDecodeError):
+                try:
+                    cands.append(s.encode('utf-16-be').decode('latin-1'))
+                except (UnicodeEncodeError, UnicodeDecodeError):
+                    pass
+            for tw in cands:
+                if tw in siblings or tw in ('.', '..') or '/' in tw or '\x00' in tw or any(0xd800 <= ord(c) <= 0xdfff for c in tw) or tw.strip(' ') != tw:
+                    continue
+                latin = True
+                try:
+                    tw.encode('latin-1')
+                except UnicodeEncodeError:
+                    latin = False
+                if latin == all(ord(c) < 256 for c in s):
+                    continue            # both would be stored in the same encoding: not a twin
+                return tw
+        return None
+
     def udf_name(self, siblings):
         rng = self.rng
         pool = string.ascii_letters + string.digits + '._- ' + 'éßçñ'
+        if siblings and rng.random() < 0.12:
+            tw = self.udf_twin(siblings)
+            if tw is not None:
+                return tw
         for _ in range(30):
             ln = rng.choice([1, 2, 5, 8, 13, 20, 40, 80, 120, 200])
             s = ''.join(rng.choice(pool) for _ in range(ln)).strip(' ') or 'u'
